@@ -13,7 +13,8 @@ import library_family
 from common import VERIF, build_harness, log, run, scratch
 
 BATCHES = [("core", 350, ["-variants", "reloaded,reloaded2,reloaded"]), ("memo", 200, ["-variants", "reloaded,reloaded2"]),
-           ("control", 120, ["-variants", "reloaded,reloaded2", "-mode", "mixed"]), ("core", 100, ["-variants", "xproc"]), ("grb:small", 4, [])]
+           ("control", 120, ["-variants", "reloaded,reloaded2", "-mode", "mixed"]), ("core", 100, ["-variants", "xproc"]),
+           ("fetch", 150, ["-variants", "reloaded,reloaded2", "-mode", "mixed", "-flagp", "0.2"]), ("grb:small", 4, [])]
 
 
 def check():
